@@ -110,6 +110,17 @@ func cmdCheck(args []string) int {
 	if *prop == "" {
 		return toolError("need -property")
 	}
+	if os.Getenv("GOVC_FOREIGN_AUDIT") != "" {
+		auditProp = *prop
+		defer func() {
+			var ks []string
+			for k, n := range auditSkipped {
+				ks = append(ks, fmt.Sprintf("%s (x%d)", k, n))
+			}
+			sort.Strings(ks)
+			fmt.Fprintf(os.Stderr, "AUDIT: %d foreign callee clauses were not assumed:\n  %s\n", len(ks), strings.Join(ks, "\n  "))
+		}()
+	}
 	t0 := time.Now()
 	w, err := loadWorld(*repo, specsDir())
 	if err != nil {
@@ -185,6 +196,21 @@ func cmdCheck(args []string) int {
 		for k := range r.Unknown {
 			unknown[k] = true
 		}
+	}
+	for _, ub := range w.Unbound {
+		serves := ub.c.servesProp(*prop)
+		for _, cl := range ub.c.Ensures {
+			if clauseServes(cl, ub.c, *prop) {
+				serves = true
+			}
+		}
+		if !serves {
+			continue
+		}
+		name := ub.c.Pkg[strings.LastIndex(ub.c.Pkg, "/")+1:] + "." + ub.c.Key
+		all = append(all, &Oblig{Name: name + "/contract.not_checkable", Kind: "unstatable", Func: name, Props: []string{*prop},
+			Goal: "false", Desc: "the function this contract was written for is gone or has another signature: " + ub.msg,
+			NoSolve: "contract target missing: " + ub.msg})
 	}
 	// lemmas, const checks, struct checks
 	extra, xerr := w.extraObligations(*prop)
@@ -373,7 +399,8 @@ func cmdCheck(args []string) int {
 		as = append(as, "unknown call (all heaps havoc'd, results unconstrained): "+k)
 	}
 	as = append(as, "nil-pointer dereference of receivers/pointer parameters is not checked", "out-of-memory, stack exhaustion and goroutine scheduling are outside the model",
-		"Go integers are modelled exactly (wrap-around for unsigned, overflow obligation for signed); floating point is uninterpreted")
+		"Go integers are modelled exactly (wrap-around for unsigned, overflow obligation for signed); floating point is uninterpreted",
+		"SMT solvers are trusted only in agreement: every `unsat` was produced by two configurations (two random seeds of one solver, or two of z3 5.1.0 / z3 4.8.12 / cvc5 1.0.3); an unsoundness reproduced by two configurations would go unnoticed (DESIGN 11.4 records three wrong single answers from z3 5.1.0)")
 	as = append(as, w.propertyNotes(*prop)...)
 	usedAxMu.Lock()
 	for ax := range usedAxGlobal {
